@@ -24,18 +24,6 @@ def gen_C04():
             raise RuntimeError("C04 generator: %s is no longer a bytes pattern" % nm)
         d(nm, rx.pattern)
         out.append("Definition %s_flags : N := %d%%N." % (nm, rx.flags))
-    # the two shapes of PLACEHOLDER_REGEX the hand matcher of Deps/Model.v is written for: css attribute first, then ids
-    # (until notes/fixes/C04-placeholder-css-attr-order.patch) / id and css attributes in any order (after it)
-    attr_old = r'(?: data-djc-css-\w{6}="")?(?: data-djc-id-\w{6}="")*'
-    attr_new = r'(?: data-djc-(?:id|css)-\w{6}="")*'
-    shape = '<link name="CSS_PLACEHOLDER"%s/?>|<script name="JS_PLACEHOLDER"%s></script>'
-    pat = D.PLACEHOLDER_REGEX.pattern.decode()
-    if pat == shape % (attr_old, attr_old):
-        out.append("Definition placeholder_any_order : bool := false.")
-    elif pat == shape % (attr_new, attr_new):
-        out.append("Definition placeholder_any_order : bool := true.")
-    else:
-        raise RuntimeError("C04 generator: PLACEHOLDER_REGEX has neither of the two known shapes: %r" % pat)
     d("deps_comment", D.COMPONENT_DEPS_COMMENT)
     d("css_placeholder", D.CSS_DEPENDENCY_PLACEHOLDER)
     d("js_placeholder", D.JS_DEPENDENCY_PLACEHOLDER)
